@@ -11,6 +11,7 @@ same directory (a sorted association list, so this is equality of lists).
 -/
 import BBProofs.Multiround
 import BBProofs.RefPolicy
+import BBProofs.GenEq12
 
 namespace BB.MR
 open BB
@@ -140,5 +141,32 @@ example : execRound [] [Except.ok [("b", Content.other 1)], Except.ok [("a", Con
     = execRound [] [Except.ok [("a", Content.other 0)], Except.ok [("b", Content.other 1)]] := by
   rw [execRound_cons_ok, execRound_cons_ok, execRound_cons_ok, execRound_cons_ok]
   simp [writeAll, FS.write]
+
+end BB.MR
+
+namespace BB.MR
+open BB
+
+/-! ### the code: `multiround._get_files_range_tuples` as translated from `/repo` on this run -/
+
+/-- code: the task tuples of the first round are the model's `fileTuples`: the label of a file is its POSITION in the input
+list, zero-padded to the width of the number of files (never a worker id, a completion order or a clock), and its index
+range starts where the previous file's range ends.  File `i` is the handle `hs[i]`; its number of rows is an input. -/
+theorem C06_code_task_tuples (expf : Rat → Rat) (files : List (List Row)) (hs : List Nat) (hlen : hs.length = files.length) :
+    BBGen._get_files_range_tuples expf (PV.arr .big hs) (PV.arr .big (files.map List.length))
+      = ((fileTuples files).zip hs).flatMap
+          (fun t => [PV.str t.1.1, PV.int t.2, PV.int t.1.2.2, PV.int ((t.1.2.2 + t.1.2.1.length : Nat) : Int)]) :=
+  gen_file_tuples_model expf files hs hlen
+
+/-- code: the same list spelled out — label `zfill z i`, start = the sum of the earlier files' rows -/
+theorem C06_code_labels (expf : Rat → Rat) (hs cs : List Nat) (hlen : hs.length = cs.length) :
+    BBGen._get_files_range_tuples expf (PV.arr .big hs) (PV.arr .big cs)
+      = tuplesFrom (toString hs.length).length 0 0 (hs.zip cs) :=
+  gen_file_tuples expf hs cs hlen
+
+/-- premises satisfiable: three files of 2, 0 and 5 rows -/
+example : BBGen._get_files_range_tuples (fun x => x) (PV.arr .big [7, 8, 9]) (PV.arr .big [2, 0, 5])
+    = [PV.str "0", PV.int 7, PV.int 0, PV.int 2, PV.str "1", PV.int 8, PV.int 2, PV.int 2, PV.str "2", PV.int 9, PV.int 2, PV.int 7] := by
+  decide +kernel
 
 end BB.MR
